@@ -165,11 +165,21 @@ class HollowPlanar3DCode(StabilizerCode):
         Lx, Ly, Lz = self.size
         logicals = []
 
-        # X operators along x edges in x direction.
+        # Z operators on all x edges crossing a plane of constant x: the
+        # full membrane next to the boundary, or the equivalent (product with
+        # the vertex operators at x=2) lighter ring through the hollow part,
+        # so that the listed representative has minimum weight.
         operator: Operator = dict()
         for y in range(0, 2*Ly, 2):
             for z in range(0, 2*Lz, 2):
                 operator[(1, y, z)] = 'Z'
+        ring: Operator = dict()
+        for y in range(0, 2*Ly, 2):
+            for z in range(0, 2*Lz, 2):
+                if (3, y, z) in self.qubit_index:
+                    ring[(3, y, z)] = 'Z'
+        if 0 < len(ring) < len(operator):
+            operator = ring
         logicals.append(operator)
 
         return logicals
